@@ -10,7 +10,7 @@ fn main() {
 }
 #[cfg(feature = "x-meta")]
 fn main() {
-    imp::main()
+    shredh::run_main(imp::main)
 }
 
 #[cfg(feature = "x-meta")]
